@@ -486,7 +486,7 @@ def evaluate__format_integer(self: XPathFunction, context: ta.ContextType = None
     if self.context is not None:
         context = self.context
 
-    value = self.get_argument(context, cls=NumericProxy)
+    value = self.get_argument(context, cls=int)
     picture = self.get_argument(context, index=1, required=True, cls=str)
     lang = self.get_argument(context, index=2, cls=str)
     if value is None:
